@@ -40,6 +40,8 @@ def jobs(tier):
             for ndev in ([1, 2] if q else [1, 2, 4]):
                 for keyed in [False, True]:
                     out.append(("gvc.props.c17", "ob_batches", dict(D=D, keysets=ks, ndev=ndev, shuffled=keyed)))
+                    if ndev == 1 or not q:
+                        out.append(("gvc.props.c17", "ob_batches", dict(D=D, keysets=ks, ndev=ndev, shuffled=keyed, history=True)))
     return out
 
 
@@ -47,7 +49,7 @@ def _nm(fn, **kw):
     return f"C17/{fn}/" + ",".join(f"{k}={v}" for k, v in kw.items())
 
 
-def ob_batches(D, keysets, ndev, shuffled):
+def ob_batches(D, keysets, ndev, shuffled, history=False):
     G, T = geom(), tr()
     W = World(D)
     pre = W.pre
@@ -65,6 +67,8 @@ def ob_batches(D, keysets, ndev, shuffled):
             blocks[k] = arr.source(f"mi{j}_{k[0]}{k[1]}", [LA, c] + W.spatial + [Atom(D) for _ in range(k[0])])
         mis_blocks.append(blocks)
     structure = dict(D=D, keysets=keysets, ndev=ndev, shuffled=shuffled)
+    if history:
+        structure["history"] = "an earlier get_batches call on the SAME MultiImage objects, whose blocks are then replaced in place"
     devices = [f"dev{i}" for i in range(ndev)]
     key = ("key", "k0") if shuffled else None
     captured = {}
@@ -81,7 +85,19 @@ def ob_batches(D, keysets, ndev, shuffled):
         lib._PERM_CACHE.clear()
         T.__dict__["range"] = range_wrap
         try:
-            mis = tuple(G.MultiImage(dict(b), D, True) for b in mis_blocks)
+            if history:
+                # call history: same container objects, first batched with OTHER contents, then updated in place (__setitem__);
+                # the batches of the second call must be those of the data passed to it
+                olds = [{k: arr.source("old_" + f"mi{j}_{k[0]}{k[1]}", b.dims) for k, b in blocks.items()} for j, blocks in enumerate(mis_blocks)]
+                mis = tuple(G.MultiImage(dict(b), D, True) for b in olds)
+                T.get_batches(mis if len(mis) > 1 else mis[0], B, key, devices)
+                for mi_, blocks in zip(mis, mis_blocks):
+                    for k, b in blocks.items():
+                        mi_[k] = b
+                captured.clear()
+                lib._PERM_CACHE.clear()
+            else:
+                mis = tuple(G.MultiImage(dict(b), D, True) for b in mis_blocks)
             res = T.get_batches(mis if len(mis) > 1 else mis[0], B, key, devices)
         finally:
             T.__dict__["range"] = orig_range
@@ -123,9 +139,11 @@ def ob_batches(D, keysets, ndev, shuffled):
             return "undecided", f"generic-iteration contract not applicable: {bad}", None
         return all_paths(pre, run, post)
 
-    name = _nm("get_batches", **structure)
+    name = _nm("get_batches", **{k_: v for k_, v in structure.items() if k_ != "history"}) + (",history=in-place-update" if history else "")
     o = guard(name + "/ensures:aligned-partition", "ensures", body, structure)
-    o["replay"] = dict(scenario="batches", model=o.get("model"), **structure)
+    o["replay"] = dict(scenario="batches", model=o.get("model"), **dict(structure, history=bool(history)))
+    if history:
+        return [o]
     obs = [o, cover(name + "/cover:pre", pre + [zi(L) >= 2 * zi(B) + 1], structure)]
     if ndev == 2:
         # canary: round-robin device assignment (sample d + r*n_dev) must be refuted
